@@ -114,22 +114,41 @@ def write_xm(song):
 
 
 def write_s3m(song):
+    """song['s3m_samples'] (optional): list of dict(frames=int, bits=8|16, stereo=bool, left=[ints], right=[ints], loop=(start,end)|None,
+    vol=int, c2spd=int, name=str, far=bool) with signed sample values; stored unsigned (ffi = 2), stereo as a left block followed by a
+    right block; far=True places the data beyond the first MiB of the file (parapointer high byte in use)."""
     chn = song['chn']
     orders = list(song['orders'])
     if len(orders) % 2:
         orders.append(0xff)
     npat = len(song['patterns'])
+    smps = song.get('s3m_samples')
+    if smps is None:
+        smps = [dict(frames=len(SAMPLE), bits=8, stereo=False, left=[x if x < 128 else x - 256 for x in SAMPLE], right=None, loop=(0, len(SAMPLE)), vol=64, c2spd=8363, name="square")]
+    nins = len(smps)
     b = bytearray(song.get('name', 'gen').encode()[:28].ljust(28, b"\0") + b"\x1a\x10\0\0")
-    b += struct.pack("<HHHHHH", len(orders), 1, npat, 0, 0x1320, 2) + b"SCRM"
+    b += struct.pack("<HHHHHH", len(orders), nins, npat, 0, 0x1320, 2) + b"SCRM"
     b += bytes([64, song.get('speed', 6), song.get('bpm', 125), 0x30, 0, 0]) + bytes(8) + struct.pack("<H", 0)
     b += bytes([(i if i < 8 else 0xff) if i < chn else 0xff for i in range(32)])
     b += bytes(orders)
-    hdr_end = len(b) + 2 + 2 * npat
+    hdr_end = len(b) + 2 * nins + 2 * npat
     ins_para = (hdr_end + 15) // 16
-    smp_para = ins_para + 5
+    pos = (ins_para + 5 * nins) * 16
+    # sample data blobs
+    sblobs = []
+    for sm in smps:
+        def enc(vals):
+            if sm['bits'] == 8: return bytes((v + 128) & 0xff for v in vals)
+            return b"".join(struct.pack("<H", (v + 32768) & 0xffff) for v in vals)
+        blob = enc(sm['left']) + (enc(sm['right']) if sm.get('stereo') else b"")
+        sblobs.append(blob)
+    near = [k for k, sm in enumerate(smps) if not sm.get('far')]
+    far = [k for k, sm in enumerate(smps) if sm.get('far')]
+    spos = {}
+    for k in near:
+        spos[k] = pos; pos += len(sblobs[k]) + ((-len(sblobs[k])) % 16)
     pat_paras = []
     patdata = []
-    pos = (smp_para + (len(SAMPLE) + 15) // 16) * 16
     for pat in song['patterns']:
         d = bytearray()
         for r in range(64):
@@ -153,16 +172,27 @@ def write_s3m(song):
         pat_paras.append(pos // 16)
         patdata.append(blob + bytes((-len(blob)) % 16))
         pos += len(patdata[-1])
-    b += struct.pack("<H", ins_para) + b"".join(struct.pack("<H", p) for p in pat_paras)
+    if far:
+        pos = max(pos, 0x100000 + 0x40)
+        pos += (-pos) % 16
+        for k in far:
+            spos[k] = pos; pos += len(sblobs[k]) + ((-len(sblobs[k])) % 16)
+    b += b"".join(struct.pack("<H", ins_para + 5 * k) for k in range(nins)) + b"".join(struct.pack("<H", p) for p in pat_paras)
     b += bytes(ins_para * 16 - len(b))
-    ih = bytearray([1]) + b"square.smp\0\0" + bytes([0]) + struct.pack("<H", smp_para) + struct.pack("<III", len(SAMPLE), 0, len(SAMPLE))
-    ih += bytes([64, 0, 0, 1]) + struct.pack("<I", 8363) + bytes(12) + b"square".ljust(28, b"\0") + b"SCRS"
-    b += ih + bytes(80 - len(ih))
-    b += bytes(smp_para * 16 - len(b))
-    b += bytes((x + 128) & 0xff for x in SAMPLE)      # unsigned (ffi = 2)
+    for k, sm in enumerate(smps):
+        para = spos[k] // 16
+        flags = (1 if sm.get('loop') else 0) | (2 if sm.get('stereo') else 0) | (4 if sm['bits'] == 16 else 0)
+        lp = sm.get('loop') or (0, 0)
+        ih = bytearray([1]) + ("s%02d.smp" % k).encode().ljust(12, b"\0") + bytes([(para >> 16) & 0xff]) + struct.pack("<H", para & 0xffff) + struct.pack("<III", sm['frames'], lp[0], lp[1])
+        ih += bytes([sm.get('vol', 64), 0, 0, flags]) + struct.pack("<I", sm.get('c2spd', 8363)) + bytes(12) + sm.get('name', 'smp').encode()[:27].ljust(28, b"\0") + b"SCRS"
+        b += ih + bytes(80 - len(ih))
+    for k in near:
+        b += bytes(spos[k] - len(b)) + sblobs[k]
     b += bytes((-len(b)) % 16)
     for blob in patdata:
         b += blob
+    for k in far:
+        b += bytes(spos[k] - len(b)) + sblobs[k]
     return bytes(b)
 
 
@@ -179,7 +209,8 @@ def write_it(song):
     b += bytes(4 * (1 + len(pats)))
     smp_off = len(b)
     sh = bytearray(b"IMPS" + b"square.smp\0\0" + bytes([0, 64, 0x11, 64]) + b"square".ljust(26, b"\0") + bytes([1, 32]))
-    sh += struct.pack("<IIIIIII", len(SAMPLE), 0, len(SAMPLE), 8363, 0, 0, 0)     # length loopbeg loopend c5 susbeg susend samplepointer(patched)
+    lb, le = song.get('it_loop', (0, len(SAMPLE)))
+    sh += struct.pack("<IIIIIII", len(SAMPLE), lb, le, song.get('it_c5', 8363), 0, 0, 0)     # length loopbeg loopend c5 susbeg susend samplepointer(patched)
     sh += bytes([0, 0, 0, 0])
     b += sh
     data_off = len(b)
